@@ -237,7 +237,7 @@ func (r *pointRun[P]) specials() []special {
 	var out []special
 	if g.w != nil {
 		if p, ok := g.w.lift(f.zero()); ok { // points with x = 0
-			out = append(out, special{label: "x0", p: p}, special{label: "x0neg", p: g.w.neg(p)})
+			out = append(out, special{label: "x0", p: p}, special{label: "x0", p: g.w.neg(p)})
 		}
 		for i := int64(1); i < 200 && len(out) < 6; i++ { // small abscissas
 			if p, ok := g.w.lift(f.small(i)); ok {
@@ -263,7 +263,7 @@ func (r *pointRun[P]) specials() []special {
 		t2 := special{label: "T2", p: pt{x: f.small(0), y: f.small(-1)}}
 		if p, ok := g.e.liftY(f.small(0)); ok { // y = 0: order four
 			t2.half = &p
-			out = append(out, t2, special{label: "T4", p: p}, special{label: "T4neg", p: g.e.neg(p)})
+			out = append(out, t2, special{label: "T4", p: p}, special{label: "T4", p: g.e.neg(p)})
 		} else {
 			out = append(out, t2)
 		}
